@@ -195,29 +195,30 @@ func runC20(c *core.Ctx) {
 	} else {
 		// any-of: returns true on the Matches edge inside the loop, false after the loop
 		okT, okF := false, false
-		core.Instrs(f, func(ins ssa.Instruction) {
-			r, isR := ins.(*ssa.Return)
-			if !isR {
-				return
-			}
-			k, isK := core.RetVals(r)[0].(*ssa.Const)
+		bad := false
+		for _, rcase := range core.ReturnCases(f) {
+			k, isK := core.Resolve(rcase.Vals[0]).(*ssa.Const)
 			if !isK {
-				return
+				bad = true
+				continue
 			}
 			onMatch := false
-			for _, cnd := range core.EdgeFacts(r.Block()) {
+			for _, cnd := range rcase.Facts {
 				nrm := core.Normalize(cnd)
 				if inv, isC := nrm.V.(*ssa.Call); isC && inv.Call.IsInvoke() && inv.Call.Method.Name() == "Matches" && nrm.True {
 					onMatch = true
 				}
 			}
-			if isTrueConst(k) && onMatch {
+			switch {
+			case isTrueConst(k) && onMatch:
 				okT = true
-			}
-			if !isTrueConst(k) && !onMatch {
+			case !isTrueConst(k) && !onMatch:
 				okF = true
+			default:
+				bad = true
 			}
-		})
+		}
+		okT = okT && !bad
 		c.Check(okT && okF, "R6", "SumType.Matches", p.Pos(f.Pos()), "true as soon as one member type matches, false after all were tried", "SumType.Matches is not an any-of over its member types")
 	}
 	if f := p.Method(p.Fpgo, "ProductType", "Matches"); f == nil {
